@@ -228,11 +228,18 @@ def _mink_prefix_env(db, f, stmts, sizes, extra):
         if k == "IfStmt":
             cond, then, els = if_parts(s)
             if any(y.get("kind") == "ReturnStmt" for y in walk(then)) and els is None:
+                if any(y.get("kind") == "CallExpr" and db.callee(y)[0] == f.name for y in walk(then)):
+                    continue             # a re-entry with other arguments (judged by MINK.roles); this activation's structure is what follows
                 try:
                     if it._truth(it.ev(cond), s):
                         returned = True
                         break
                 except Unsupported:
+                    pass
+            else:
+                try:
+                    it.exec(s)                  # e.g. `if (isClosed) delta = 0;`
+                except (Unsupported, _Return):
                     pass
             continue
         if k == "DeclStmt":
@@ -250,6 +257,11 @@ def _mink_prefix_env(db, f, stmts, sizes, extra):
             continue
         if k == "ReturnStmt":
             break
+        if k in ("BinaryOperator", "CompoundAssignOperator"):
+            try:
+                it.exec(s)
+            except (Unsupported, _Return):
+                pass
     return it.env, returned, indexed
 
 
